@@ -120,6 +120,15 @@ def scenarios(ctx):
                 h[rng.randrange(p)] = rng.randrange(16)
             rng.shuffle(h)
             prs.append([g, h])
+        # genotypes of DIFFERENT ploidy (the index is a rank within one ploidy only): extra reference alleles, the empty
+        # genotype, haploid against diploid
+        for _ in range(25):
+            p = rng.randint(0, 5)
+            g = [rng.randrange(4) for _ in range(p)]
+            h = g + [0] * rng.randint(1, 2) if rng.random() < 0.7 else [rng.randrange(4) for _ in range(rng.randint(0, 6))]
+            rng.shuffle(h)
+            prs.append([g, h] if rng.random() < 0.5 else [h, g])
+        prs += [[[], [0, 0]], [[0], []], [[1, 1], [2]], [[0, 1], [0, 0, 1]]]
         scs.append({"kind": "cmp", "pairs": prs})
     for _ in range(nrand):
         prs = []
